@@ -268,7 +268,7 @@ Section Roundtrip.
     (* the compressor's output *)
     unfold compress_frame. cbn [rd_data].
     pose proof (compress_loop_spec cstate cblock cskip cfallback creset (S (length data)) LUncompressed slice (creset cs)
-                  {| rd_data := data; rd_script := script |} (frame_header_bytes wsize (is_some hash32))) as L.
+                  {| rd_data := data; rd_script := script |} (frame_header_bytes (Z.max wsize MAX_BLOCK_SIZE) (is_some hash32))) as L.
     cbn [rd_data] in L. specialize (L ltac:(lia) (Nat.lt_succ_diag_r _)). fold bl in L.
     rewrite enc_blocks_uncompressed_indep, Ebs in L. cbn [rbind] in L.
     destruct (compress_loop cstate cblock cskip cfallback (S (length data)) LUncompressed slice (creset cs) _ _) as [[[o c] rr]|e|e];
@@ -277,7 +277,8 @@ Section Roundtrip.
     eexists _, _, _. split; [reflexivity|].
     (* the decoder: header *)
     set (tail := match hash32 with Some h => h data | None => [] end).
-    destruct (window_descriptor_range wsize Hw) as (e & He & Ewd).
+    assert (Hw' : 1 <= Z.max wsize MAX_BLOCK_SIZE <= 2 ^ 27) by (change MAX_BLOCK_SIZE with 131072; change (2 ^ 27) with 134217728 in *; lia).
+    destruct (window_descriptor_range _ Hw') as (e & He & Ewd).
     destruct (window_of_descriptor e (is_some hash32) He) as (w & Ew & Ecw).
     unfold frame_header_bytes. rewrite Ewd.
     assert (Efront : frame_front ((le_bytes 4 MAGIC_NUM ++ [(if is_some hash32 then 4 else 0)] ++ [e * 8]) ++ bs ++ tail)
